@@ -31,6 +31,14 @@ for neg, nc, b1, neg2, b2, eb in [
     IFS.append(("if", ((neg, nc, b1), (neg2, 1, b2)), eb))
 for neg, nc, b1, eb in [(False, 1, 1, 1), (True, 1, 1, 1), (False, 2, 1, 0), (False, 1, 0, 1), (True, 2, 0, 0), (False, 1, 2, 2)]:
     IFS.append(("if", ((neg, nc, b1),), eb))
+# longer or-groups and chains (appended, so that the positions REDUCED_ITEMS / SMALL_ITEMS refer to stay the same)
+IFS_LONG = [
+    ("if", ((False, 3, 1),), None), ("if", ((True, 3, 1),), None), ("if", ((False, 4, 1),), None), ("if", ((False, 3, 1),), 1),
+    ("if", ((False, 3, 1), (False, 1, 1)), 1), ("if", ((False, 1, 1), (False, 3, 1)), None), ("if", ((True, 4, 0), (False, 2, 1)), 0),
+    ("if", ((False, 1, 1), (False, 1, 1), (False, 1, 1)), None), ("if", ((False, 1, 1), (False, 1, 1), (False, 1, 1)), 1),
+    ("if", ((False, 1, 1), (True, 1, 1), (False, 2, 1)), 1), ("if", ((False, 1, 0), (False, 1, 1), (False, 1, 0)), None),
+    ("if", ((False, 2, 1), (False, 1, 2), (True, 1, 1), (False, 1, 1)), 1),
+]
 # switch: list of groups; group = (n_headers, is_default_in_group_position or None, body_len); default position
 SWITCHES = [
     ("switch", ((1, 1),), None),
@@ -54,7 +62,7 @@ SWITCHES = [
     ("switch", ((2, 0), (1, 1)), None),
     ("switch", ((1, 1), (1, 1), (1, 1)), "middle"),
 ]
-ALL_ITEMS = PLAIN + IFS + SWITCHES
+ALL_ITEMS = PLAIN + IFS + SWITCHES + IFS_LONG
 REDUCED_ITEMS = [PLAIN[0], PLAIN[3], IFS[0], IFS[6], IFS[12], IFS[17], IFS[20], SWITCHES[0], SWITCHES[2], SWITCHES[5], SWITCHES[7]]
 SMALL_ITEMS = [PLAIN[0], IFS[0], IFS[17], SWITCHES[4]]
 
@@ -194,7 +202,7 @@ def run(tier, seed):
     return runner.finish(
         ID, LEVEL, tier, seed, total, t0,
         rule=f"G-flat: all sequences of K items + one terminator; K=1 and K=2 over all {len(ALL_ITEMS)} item variants "
-             f"(5 plain statement kinds, {len(IFS)} if-chain variants incl. not, ||, elseif, else, empty blocks, "
+             f"(5 plain statement kinds, {len(IFS) + len(IFS_LONG)} if-chain variants incl. not, or-groups of 1-4 conditions, chains of up to 4 branches, else, empty blocks, "
              f"{len(SWITCHES)} break-terminated switch variants incl. grouped cases and default first/middle/last/grouped/only), "
              f"K=3 over {len(REDUCED_ITEMS)} variants" + ("" if tier == "quick" else f" and over all {len(ALL_ITEMS)}, K=4 over {len(REDUCED_ITEMS)} variants") +
              "; 1 and 2 routines; oracle on decompile(compile(p)): no fallback, no jump statement, every uniquely named "
